@@ -11,15 +11,16 @@ import random
 from ..core import Check
 from ..terms import A, I, V, C, clause, call, and_
 
-KEYS = [{"n": "p", "k": 1}, {"n": "q", "k": 0}, {"n": "r", "k": 2}, {"n": "u", "k": 1}, {"n": "w", "k": 0}]
+# (`atom` is a name of the engine's own API: as a predicate it can only have facts, and those behave like any others)
+KEYS = [{"n": "p", "k": 1}, {"n": "q", "k": 0}, {"n": "r", "k": 2}, {"n": "atom", "k": 1}, {"n": "w", "k": 0}]
 
 FACTS_FULL = [C("p", A("a")), C("p", A("b")), C("p", I(70000)), C("p", C("f", V(0))), C("p", V(0)), A("q"),
               C("r", A("a"), A("b")), C("r", V(0), V(0))]
 # (an integer above CPython's small-integer cache: every occurrence is built as an object of its own)
 FACTS_QUICK = [C("p", A("a")), C("p", I(70000)), C("p", V(0)), A("q"), C("r", V(0), V(0)), C("r", A("a"), A("b"))]
 PATS_FULL = [C("p", A("a")), C("p", I(70000)), C("p", V(0)), C("p", C("f", A("a"))), A("q"), C("r", V(0), V(1)), C("r", V(0), V(0)),
-             C("r", A("a"), V(0)), C("u", V(0)), A("w")]
-PATS_QUICK = [C("p", A("a")), C("p", I(70000)), C("p", V(0)), A("q"), C("r", V(0), A("b")), C("r", V(0), V(0)), C("u", V(0)), A("w")]
+             C("r", A("a"), V(0)), C("atom", V(0)), A("w")]
+PATS_QUICK = [C("p", A("a")), C("p", I(70000)), C("p", V(0)), A("q"), C("r", V(0), A("b")), C("r", V(0), V(0)), C("atom", V(0)), A("w")]
 
 
 def nvars(t):
@@ -88,10 +89,10 @@ def build(ops, depth, route):
 
 def clear_scenario(ops):
     """every key known, then clear, then every pair of operations: what was cleared must be independent lists"""
-    pre = [C("p", A("a")), C("u", A("b")), A("q"), A("w"), C("r", A("a"), A("b"))]
+    pre = [C("p", A("a")), C("atom", A("b")), A("q"), A("w"), C("r", A("a"), A("b"))]
     steps = [[{"op": "assert", "e": 1, "term": t, "atEnd": True, "r": 0}] for t in pre]
     steps.append([{"op": "clear", "e": 1}])
-    more = list(ops) + [("assertz", C("u", A("c")), 0), ("assertz", A("w"), 0), ("query", C("u", V(0)), 0)]
+    more = list(ops) + [("assertz", C("atom", A("c")), 0), ("assertz", A("w"), 0), ("query", C("atom", V(0)), 0)]
     for step in range(2):
         alts = []
         for j, (kind, t, k) in enumerate(more):
@@ -101,6 +102,25 @@ def clear_scenario(ops):
             alts.append({"op": "solve", "e": 1, "r": 100 + step, "goal": goal, "qnv": nvars(t), "k": k})
         steps.append(alts)
     return {"scripts": {}, "keys": KEYS, "steps": steps}
+
+
+def clear_while_suspended():
+    """an enumeration or a retract is suspended at an answer, clear(), n further updates, then it is resumed:
+    it may not return or remove anything that clear() removed; what was asserted afterwards is a new list"""
+    scns = []
+    for n in range(0, 7):
+        for pre in (2, 3):
+            steps = [[{"op": "assert", "e": 1, "term": C("p", A("f%d" % i)), "atEnd": True, "r": 0}] for i in range(pre)]
+            steps.append([{"op": "query", "e": 1, "r": 1, "goal": C("retract", C("p", V(0))), "qnv": 1}, {"op": "query", "e": 1, "r": 1, "goal": C("p", V(0)), "qnv": 1}])
+            steps.append([{"op": "next", "r": 1}])
+            steps.append([{"op": "clear", "e": 1}])
+            for i in range(n):
+                steps.append([{"op": "assert", "e": 1, "term": C("p", A("n%d" % i)), "atEnd": True, "r": 0},
+                              {"op": "solve", "e": 1, "r": 50 + i, "goal": C("asserta", C("p", A("n%d" % i))), "qnv": 0, "k": 0}])
+            steps += [[{"op": "next", "r": 1}]] * 3
+            steps.append([{"op": "solve", "e": 1, "r": 2, "goal": C("p", V(0)), "qnv": 1, "k": 0}])
+            scns.append({"scripts": {}, "keys": KEYS, "steps": steps})
+    return scns
 
 
 def shard(ops, n, seed, keep):
@@ -148,6 +168,7 @@ def run(tier, seed):
         from . import c14
         chk.machine_family("ops-within-one-body", c14.body_scenarios(), features=features)
         chk.machine_family("after-clear", [clear_scenario(ops)], features=features)
+        chk.machine_family("clear-while-suspended", clear_while_suspended(), features=features, opts_list=[{}, {"keep_name_atoms": True}])
         from .. import gen as _g
         chk.machine_family("more-than-32-facts-under-one-key", _g.scale_groups()["manyfacts"], {"budget_extra": 20000000, "must_complete": True}, features=features, max_steps=8000)
         chk.exhaustive = True
@@ -161,6 +182,7 @@ def run(tier, seed):
         sub = shard(q, 0, seed, 18)
         chk.machine_family("api-d4", [build(sub, 4, "api")], features=features)
         chk.machine_family("after-clear", [clear_scenario(q)], features=features)
+        chk.machine_family("clear-while-suspended", clear_while_suspended(), features=features, opts_list=[{}, {"keep_name_atoms": True}])
         from . import c14
         chk.machine_family("ops-within-one-body", c14.body_scenarios(), features=features)
         from .. import gen as _g
